@@ -99,7 +99,12 @@ func init() {
 			return m.tb.Const(t.w, m.concretize(t, "vConcrete")), true
 		},
 		"vAssume": func(m *Machine, f *Frame, a []value) (value, bool) {
-			m.assume(a[0].(*Term))
+			c := a[0].(*Term)
+			// an unsatisfiable assumption ends the path here (it is not a path of the harness)
+			if ok, _ := m.feasible(c); !ok {
+				panic(killPath{"assumption infeasible"})
+			}
+			m.assume(c)
 			return nil, true
 		},
 		"vAssert": func(m *Machine, f *Frame, a []value) (value, bool) {
